@@ -64,6 +64,9 @@ class Modes(Stage):
             rc_f, out_f, err_f = cli.run_main(opts + ['-l', log], stdin=b'q\n')
             rc_p, out_p, err_p = cli.run_main(opts + ['-p'], stdin=data)
             res.evals += 2
+            if rc_f is None or rc_p is None:
+                res.label('timeout(inconclusive)')      # a slow run is never a violation
+                return res
             out_f = out_f.replace(PROMPT, b'')
             if rc_f != 0 or rc_p != 0:
                 res.bad('file-or-pipe-mode-exit-status', 'file %r pipe %r: %r' % (rc_f, rc_p, (err_f + err_p)[-300:]))
@@ -93,6 +96,11 @@ class Modes(Stage):
                     extra['WAYLAND_DEBUG'] = case['parent_wayland_debug']     # wayland-debug itself started from such an environment
                 rc, out, err = cli.run_main(opts + ['-r', cli.PY, child] + case['argv'], stdin=b'q\n', extra_env=extra)
                 res.evals += 1
+                if rc is None or b'Failed to join subprocess thread' in err:
+                    # wall-clock effects (timeout here, or the tool's own 1 s join timeout under load) are inconclusive, never a violation
+                    res.label('timeout(inconclusive)')
+                    res.count('inconclusive-runs')
+                    continue
                 if not os.path.exists(report):
                     res.bad('program-not-started', 'rc=%r err=%r' % (rc, err[-300:]))
                     continue
